@@ -56,9 +56,11 @@ fn abscissae(r: &mut Rng, n: usize) -> (Vec<f64>, &'static str) {
 
 fn ordinates(r: &mut Rng, xs: &[f64]) -> (Vec<f64>, &'static str) {
     let n = xs.len();
-    let ysc = match r.below(4) {
-        0 => 1.0,
-        1 => 10f64.powf(r.uniform(-25.0, 25.0)),
+    let ysc = match r.below(16) {
+        0..=3 => 1.0,
+        4..=7 => 10f64.powf(r.uniform(-25.0, 25.0)),
+        8 => 10f64.powf(r.uniform(150.0, 285.0)),   // secant slopes whose products overflow
+        9 => 10f64.powf(r.uniform(-140.0, -100.0)), // secant slopes whose products are tiny but normal
         _ => 10f64.powf(r.uniform(-3.0, 3.0)),
     };
     let (ys, name): (Vec<f64>, &'static str) = match r.below(10) {
